@@ -54,6 +54,8 @@ ESCAPES = [
     'range(3)', 'slice(1)', 'super()', 'classmethod(abs)', 'property(abs)', 'staticmethod(abs)', 'max.__self__', 'sum.__self__.__dict__',
 ]
 BENIGN = [
+    # patterns the regular-expression compiler warns about ('possible nested set'): a warning would be printed and the warnings machinery would read a source file
+    'regex("[[a]")', 'extract("[[a](b)") == ""', 'regex_replace(description, "[[a]", "") != ""',
     'contains("NETFLIX")', 'amount > 5 and month == 1', 'description', 'amount', 'date', 'field.kind', 'txn.amount', 'source', 'weekday',
     '[r.item for r in orders if r.id == "77"]', 'sum(r.qty for r in orders)', 'len(orders)', 'any(r.id == "1" for r in orders)',
     'next((r.item for r in orders), "none")', 'orders[0].item', 'extract("(\\\\d+)")', 'split(" ", 0)', 'regex_replace(description, "N", "M")',
@@ -229,7 +231,7 @@ def check_fresh_process():
     exprs = ['fuzzy("STARBUCKS")', 'fuzzy("STARBUX", 0.7)', 'contains("STAR")', 'regex("ST.R")', 'normalized("starbucks")', 'anyof("A", "STARBUCKS")', 'startswith("STAR")',
              'extract("STORE (\\d+)")', 'split(" ", 1)', 'substring(0, 4)', 'trim(field.memo)', 'uppercase(field.memo)', 'regex_replace(description, "\\d+", "#")',
              'strip_prefix(description, "STAR")', 'exists(field.memo)', 'month == 1 and weekday >= 0', 'date >= "2025-01-01"', 'sum(r.amount for r in orders) > 1',
-             'round(amount) + abs(amount)', 'len([r for r in orders]) == 1']
+             'round(amount) + abs(amount)', 'len([r for r in orders]) == 1', 'regex("[[b]")', 'extract("[[b](c)")', 'regex_replace(description, "[[c]", "")']
     O.case(('fresh_process',))
     p = subprocess.run([_sys.executable, '-c', FRESH, json.dumps(exprs)], capture_output=True, text=True, timeout=120)
     if p.returncode != 0:
